@@ -228,29 +228,33 @@ fn supervise(id: &str, tier: &str) -> i32 {
         .into_iter()
         .map(|r| Reported { signature: r["signature"].as_str().unwrap_or("").into(), summary: r["summary"].as_str().unwrap_or("").into(), replay: r["replay"].clone() })
         .collect();
-    // confirm reproducibility of every history-replayable violation before it becomes a verdict
+    // confirm reproducibility of every replayable violation before it becomes a verdict; a report that does
+    // not reproduce is dropped (and makes the run a machinery failure if nothing reproducible remains)
     let mut confirmed = vec![];
+    let mut dropped = 0usize;
     for r in reported {
-        if let (Some(rp), true) = (d.replay, r.replay.get("ops").is_some() || r.replay.get("system").is_some()) {
+        if let (Some(rp), true) = (d.replay, r.replay.get("ops").is_some() || r.replay.get("system").is_some() || r.replay.get("pair_index").is_some()) {
             vharness::explore::install_quiet_panic_hook();
             match rp(&r.replay) {
                 Ok(Some(_)) => confirmed.push(r),
                 Ok(None) => {
-                    eprintln!("machinery: a reported violation did not reproduce on straight-line replay: {}", r.summary);
-                    let _ = std::panic::take_hook();
-                    cleanup();
-                    return 2;
+                    eprintln!("machinery: a reported violation did not reproduce on replay (dropped): {}", r.summary.lines().next().unwrap_or(""));
+                    dropped += 1;
                 }
                 Err(e) => {
-                    eprintln!("machinery: replay error: {e}");
-                    cleanup();
-                    return 2;
+                    eprintln!("machinery: replay error (dropped): {e}");
+                    dropped += 1;
                 }
             }
             let _ = std::panic::take_hook();
         } else {
             confirmed.push(r);
         }
+    }
+    if confirmed.is_empty() && dropped > 0 {
+        cleanup();
+        eprintln!("machinery: {dropped} reported violation(s), none reproducible; no verdict");
+        return 2;
     }
     let verdict = judge(id, &confirmed);
     let mut coverage = v["coverage"].clone();
